@@ -237,6 +237,9 @@ func setFloors(r *vf.Run, prop string) {
 	r.Floor("blocks.accepted.fol", 10)
 	r.Floor("blocks.accepted.pub", 10)
 	r.Floor("inject.admitted", 20)
+	r.Floor("mirror.accepted", 10)
+	r.Floor("gen.oversize", 5)
+	r.Floor("publish.real-entry-point", 4)
 	switch prop {
 	case "C01":
 		r.Floor("forge.rejected.coins-created", 1)
@@ -245,12 +248,14 @@ func setFloors(r *vf.Run, prop string) {
 		r.Floor("forge.rejected.coins-wrap-early", 1)
 		r.Floor("forge.rejected.zero-coin", 1)
 		r.Floor("check.supply", 100)
+		r.Floor("mirror.arbitrated", 1)
 	case "C02":
 		r.Floor("forge.rejected.dup-input", 1)
 		r.Floor("forge.rejected.double-spend-in-block", 1)
 		r.Floor("forge.rejected.spend-spent", 1)
 		r.Floor("forge.rejected.spend-same-block", 1)
 		r.Floor("check.utxo", 100)
+		r.Floor("readers.reads", 10000)
 	case "C03":
 		r.Floor("forge.rejected.hours-created", 1)
 		r.Floor("forge.rejected.hours-created-beside-overflow-input", 1)
